@@ -225,4 +225,19 @@ CHECKS['C11'] = tree_check('C11', 'Same sequences as C10 with the whole-file own
                            '(inserts, deletes, VACUUM, reopen; with and without a UNIQUE index) from the catalog roots.',
                            [], {'audits': 10000, 'drop_audits': 300, 'reuse_audits': 300, 'sql_audits': 2000})
 
+CHECKS['C17'] = {
+    'level': 'exploration',
+    'rule': 'sequences of append / force / reopen / truncate on a real log file through the verif facade, in five size profiles (tiny records incl. empty payloads, hundreds of bytes, up to half a block, '
+            'near the per-block maximum, random); undo/redo splits; one-byte-too-large records (must be refused without disturbing the log); after every force and reopen the reader is run with read-ahead 1, 2, 4 or 16 blocks '
+            'and must return exactly the appended-and-forced records (field-by-field, payload byte-by-byte, LSNs strictly increasing). Non-trivial = every sequence; distinct = hash of (seed, index).',
+    'legs': {'quick': [{'flavour': 'prod', 'shards': 16}], 'thorough': [{'flavour': 'prod', 'shards': 16}]},
+    'min_evaluations': {'quick': 2000, 'thorough': 40000},
+    'min_counters': {'quick': {'reader_checks': 20000, 'forces_beyond_block0': 2000, 'reopens': 5000, 'truncations': 2000, 'oversized_refused': 2000},
+                     'thorough': {'reader_checks': 400000}},
+    'assumptions': ['Drop of the log handle forces it (modelled: after reopen everything appended is covered)', 'records are at least 256 bytes below max_record_size() in the sampled part (open finding record_near_max_refused)'],
+    'technique': 'model-based runtime monitor (list-of-records oracle with a forced-prefix marker) over seeded operation sequences through an instrumentation facade',
+    'level_text': '2400 (quick) / 48000 (thorough) sequences of 20-200 operations; about 25k / 500k reader runs compared record by record with the model. Sampling of sequences; equality is exact.',
+    'level_note': 'The facade only marshals records in and out of WriteAheadLog::{push, flush, truncate, reader}; crash points inside a force are C01/C08 business.',
+}
+
 NOT_APPLICABLE = [{'property_id': c, 'reason': 'check not built yet in this session (work in progress, see DESIGN.md)'} for c in ALL if c not in CHECKS]
